@@ -22,6 +22,8 @@ pub fn world() -> MemDb {
     db.deploy(contract(22), kit::relay(pc_addr(PC_WRITE), kit::CallKind::Call, true, false));
     db.deploy(contract(23), kit::relay(pc_addr(PC_STATIC_IGNORE), kit::CallKind::StaticCall, false, true));
     db.deploy(contract(24), kit::relay(pc_addr(PC_READ_WRITE_READ), kit::CallKind::Call, false, true));
+    db.deploy(contract(25), kit::relay(pc_addr(PC_WRITE_ERR_TO_FATAL), kit::CallKind::StaticCall, false, true));
+    db.deploy(contract(26), kit::relay(pc_addr(PC_WRITE_THEN_HALT), kit::CallKind::Call, false, true));
     db
 }
 
@@ -43,6 +45,14 @@ pub fn templates() -> Vec<Template> {
         tpl("relay(pc.rwr(S,1,+3))(e0)", eoa(0), &["S.1"], move |n| call(eoa(0), n, contract(24), &[word_addr(s), word(1), word(3)])),
         tpl("pc.rwr(S,1,+4)(e3)", eoa(3), &["S.1"], move |n| call(eoa(3), n, pc_addr(PC_READ_WRITE_READ), &[word_addr(s), word(1), word(4)])),
         tpl("xfer(e0>e1)", eoa(0), &["e0"], |n| transfer(eoa(0), n, eoa(1), 9)),
+        // implementations that answer a facade error with their own error of the other severity,
+        // and a halt after writes (seeded change C11b: the facade's fault must still win)
+        tpl("relay.static(pc.write-fatal(S,1,33))(e3)", eoa(3), &["S.1"], move |n| call(eoa(3), n, contract(25), &[word_addr(s), word(1), word(33)])),
+        tpl("pc.write-fatal(S,1,34)(e1)", eoa(1), &["S.1"], move |n| call(eoa(1), n, pc_addr(PC_WRITE_ERR_TO_FATAL), &[word_addr(s), word(1), word(34)])),
+        tpl("pc.write-halt(S,1,55,halt)(e2)", eoa(2), &["S.1", "S.bal"], move |n| call(eoa(2), n, pc_addr(PC_WRITE_THEN_HALT), &[word_addr(s), word(1), word(55), word(1)])),
+        tpl("relay.call(pc.write-halt(S,1,56,halt))(e0)", eoa(0), &["S.1", "S.bal"], move |n| call(eoa(0), n, contract(26), &[word_addr(s), word(1), word(56), word(1)])),
+        tpl("pc.write-halt(S,1,57,ok)(e2)", eoa(2), &["S.1", "S.bal"], move |n| call(eoa(2), n, pc_addr(PC_WRITE_THEN_HALT), &[word_addr(s), word(1), word(57), word(0)])),
+        tpl("pc.read-halt(S,1)(e3)", eoa(3), &["S.1", "S.bal"], move |n| call(eoa(3), n, pc_addr(PC_READ_ERR_TO_HALT), &[word_addr(s), word(1)])),
     ]
 }
 
@@ -77,8 +87,45 @@ pub fn discarded_attempt_cases(spec: SpecId) -> Vec<Case> {
     v
 }
 
+/// EIP-8037 (Amsterdam): a gas limit above the per-transaction cap leaves the excess in the
+/// state-gas reservoir, which a *halting* custom precompile has to hand back unchanged (the adapter
+/// builds the halt output itself) - directly, through a relay, and for the static refusal.
+fn reservoir_cases() -> Vec<Case> {
+    let db = world();
+    let ts = templates();
+    let pick = |l: &str| ts.iter().position(|t| t.label.starts_with(l)).unwrap();
+    let blocks: Vec<Vec<usize>> = vec![
+        vec![pick("pc.write-halt(S,1,55,halt)")],
+        vec![pick("relay.call(pc.write-halt")],
+        vec![pick("relay.static(pc.write)")],
+        vec![pick("direct-static-ignore"), pick("pc.write-halt(S,1,57,ok)")],
+        vec![pick("pc.write(S,1,77)"), pick("pc.write-halt(S,1,55,halt)"), pick("pc.read(S,1)")],
+    ];
+    let mut ts2 = ts.clone();
+    for t in ts2.iter_mut() {
+        let inner = t.build.clone();
+        t.build = Arc::new(move |n, nonce_of| {
+            let mut tx = inner(n, nonce_of);
+            tx.gas_limit = (1u64 << 24) + 300_000;
+            tx
+        });
+    }
+    let mut v = Vec::new();
+    for seq in blocks {
+        if let Some(mut case) = build_case("c11r", SpecId::AMSTERDAM, &db, &ts2, &seq) {
+            case.precompiles = Some(all());
+            v.push(case);
+        }
+    }
+    v
+}
+
 pub fn jobs(tier: Tier) -> Vec<Job> {
     let mut v = jobs_sweep(tier);
+    for case in reservoir_cases() {
+        v.push(pipeline_job("c11-reservoir", &case, &RunCfg::sequential(), COARSE, 0, false));
+        v.push(pipeline_job("c11-reservoir", &case, &RunCfg::parallel(2), COARSE, if tier == Tier::Quick { 1 } else { 2 }, false));
+    }
     for case in discarded_attempt_cases(SpecId::CANCUN) {
         match tier {
             Tier::Quick => {
@@ -113,6 +160,9 @@ fn jobs_sweep(tier: Tier) -> Vec<Job> {
         }
         if seq.len() == 3 && tier == Tier::Quick && seq.iter().enumerate().any(|(i, t)| seq[..i].contains(t)) {
             continue; // quick: no repeated template in length-3 blocks
+        }
+        if seq.len() == 3 && tier == Tier::Quick && seq.iter().any(|&t| t >= 15) {
+            continue; // quick: the error-mapping / halting implementations only in blocks of 1-2
         }
         if seq.len() == 3 && tier == Tier::Quick {
             // quick: length-3 blocks must contain a facade write followed later by a facade read
